@@ -38,7 +38,7 @@ ASSUMPTIONS = [
   'nothing is asserted about the partial effects of a call that raised (they legitimately differ between eager and traced execution); the twin is re-synchronised from the caller\'s objects afterwards and the NEXT call must conform',
   'pmap, shard_map, custom_vjp are not covered (broken on this jax even with the shim)',
 ]
-PROBES = ['T_jit', 'T_remat', 'T_cond', 'T_switch', 'T_while_loop', 'T_fori_loop', 'T_cached_partial', 'T_jit_cond', 'T_jit_fori', 'cache_hit_same_structure', 'structure_changed_between_calls', 'aliased_arguments', 'structural_edit_in_trace', 'new_object_created_in_trace', 'fault_in_trace', 'call_after_fault', 'cached_partial_rejects_structure_change']
+PROBES = ['T_jit', 'T_remat', 'T_cond', 'T_switch', 'T_while_loop', 'T_fori_loop', 'T_cached_partial', 'T_jit_cond', 'T_jit_fori', 'cache_hit_same_structure', 'structure_changed_between_calls', 'aliased_arguments', 'structural_edit_in_trace', 'new_object_created_in_trace', 'fault_in_trace', 'call_after_fault', 'cached_partial_rejects_structure_change', 'object_returned', 'detached_object_returned', 'returned_object_metadata_edit', 'returned_object_reattached']
 
 CROSS_RUN_STATE = True
 
@@ -59,7 +59,7 @@ def setup_worker(w, tier):
 NAMES = ['t0', 't1', 'extra', 'made']
 
 
-def gen_program(g, arity, structural):
+def gen_program(g, arity, structural, allow_ret=False):
   prog = []
   nmul = 0
   for _ in range(g.randrange(1, 6)):
@@ -86,6 +86,10 @@ def gen_program(g, arity, structural):
       prog.append(['alias', a, g.randrange(arity), g.choice(NAMES)])
     else:
       prog.append(['read', a, g.randrange(8)])
+  if structural and allow_ret and g.random() < 0.4:
+    # the function hands an object back: a brand-new one, a new wrapper around one of the caller's objects that stays
+    # attached, or around one it has just detached from the argument
+    prog.append([g.choice(['ret_new', 'ret_wrap', 'ret_detach', 'ret_detach']), g.randrange(arity), g.randrange(8), g.randrange(1, 5)])
   return prog
 
 
@@ -99,7 +103,7 @@ def generate(rs, tier):
     structural = T in ('jit', 'remat', 'cached_partial')
     arity = 1 if T in ('while_loop', 'fori_loop', 'cached_partial', 'jit_cond', 'jit_fori') else g.choice([1, 2, 2, 3])
     nprog = {'cond': 2, 'switch': 3, 'jit_cond': 2}.get(T, 1)
-    fns.append(dict(T=T, arity=arity, progs=[gen_program(g, arity, structural and g.random() < 0.7) for _ in range(nprog)]))
+    fns.append(dict(T=T, arity=arity, progs=[gen_program(g, arity, structural and g.random() < 0.7, allow_ret=T == 'jit') for _ in range(nprog)]))
   ops = []
   flip = False
   for _ in range(g.randrange(3, 10)):
@@ -114,9 +118,13 @@ def generate(rs, tier):
       # re-bind one static attribute between calls, alternating between two values whose hashes collide in CPython
       flip = not flip
       ops.append(dict(op='edit', edit=dict(op='static', obj=g.randrange(2), name='axisflip', value=-1 if flip else -2)))
-    elif r < 0.95:
+    elif r < 0.92:
       e = W.gen_build_ops(g, 1)[1:]
       ops.extend(dict(op='edit', edit=x) for x in e)
+    elif r < 0.96:
+      # the caller works with an object a function handed back earlier: tags one of its Variables, or attaches what is
+      # inside to one of its graphs again
+      ops.append(dict(op='returned', how=g.choice(['meta', 'meta', 'reattach']), which=g.randrange(4), node=g.randrange(64), key=g.choice(['tag', 'note']), value=g.choice(['x', 'y', 3])))
     else:
       ops.append(dict(op='gc'))
   has_cp = any(f['T'] == 'cached_partial' for f in fns)
@@ -177,6 +185,7 @@ class Counter:
     self.fired = False
     self.created = 0
     self.structural = 0
+    self.detached = 0
 
   def tick(self):
     i = self.n
@@ -189,12 +198,34 @@ class Counter:
 CNT = Counter()
 
 
+def returns_object(prog):
+  return any(ins[0].startswith('ret_') for ins in prog)
+
+
 def interpret(prog, nodes, x, value_only=False):
   acc = jnp.zeros((), jnp.float32)
+  ret = None
   for ins in prog:
     CNT.tick()
     k = ins[0]
     node = nodes[ins[1] % len(nodes)]
+    if k.startswith('ret_'):
+      box = W.NODE_TYPES['Node']()
+      box.note = nnx.Variable(jnp.full((), float(ins[3]), jnp.float32))
+      if k == 'ret_new':
+        box.inner = nnx.Param(jnp.full((2,), float(ins[3]), jnp.float32))
+        CNT.created += 1
+      else:
+        cands = [a for a, v in sorted(vars(node).items()) if a != '_object__state' and isinstance(v, (nnx.Object, nnx.Variable))]
+        if cands:
+          name = cands[ins[2] % len(cands)]
+          box.inner = getattr(node, name)
+          if k == 'ret_detach':
+            delattr(node, name)
+            CNT.structural += 1
+            CNT.detached += 1
+      ret = box
+      continue
     if k in ('addvar', 'mulvar', 'read', 'xadd'):
       vs = [v for v in variables_of(node) if np.ndim(v.value) <= 2 and jnp.issubdtype(jnp.asarray(v.value).dtype, jnp.floating)]
       if not vs:
@@ -235,6 +266,8 @@ def interpret(prog, nodes, x, value_only=False):
       if ins[3] not in vars(node):
         setattr(node, ins[3], other)
         CNT.structural += 1
+  if returns_object(prog):
+    return acc, ret
   return acc
 
 
@@ -440,6 +473,32 @@ def skeleton(heap):
   return out
 
 
+def reachable(root):
+  """[(path, object)] for every graph node / Variable reachable from root, first visit, deterministic order."""
+  out = []
+  seen = set()
+
+  def go(x, path):
+    if isinstance(x, (nnx.Variable, nnx.Object)):
+      if id(x) in seen:
+        return
+      seen.add(id(x))
+      out.append((path, x))
+      if isinstance(x, nnx.Object):
+        for k, v in sorted(vars(x).items()):
+          if k != '_object__state':
+            go(v, path + (k,))
+    elif isinstance(x, dict):
+      for k in sorted(x):
+        go(x[k], path + (k,))
+    elif isinstance(x, (list, tuple)):
+      for i, v in enumerate(x):
+        go(v, path + (i,))
+
+  go(root, ())
+  return out
+
+
 def val(a):
   a = np.asarray(a)
   if a.dtype.kind == 'f':
@@ -460,6 +519,7 @@ class TwinHeaps:
     self.instr = 0
     self.last_struct = {}
     self.after_fault = False
+    self.returned = []
 
   def compare(self, where):
     for na, nb in zip(self.A.nodes, self.B.nodes):
@@ -470,6 +530,7 @@ class TwinHeaps:
   def resync(self):
     """B := structural copy of A (harness-side deepcopy, sharing across roots preserved)."""
     self.B.real = twin_copy(self.A.real)  # one memo: sharing between roots, Variables and containers preserved
+    self.returned = []  # the eager twins of the objects handed back earlier point into the heap that was just replaced
 
   def step(self, oi, op):
     res = self.res
@@ -477,6 +538,9 @@ class TwinHeaps:
     if k == 'gc':
       gc.collect()
       res.fault('gc')
+      return
+    if k == 'returned':
+      self.returned_op(oi, op)
       return
     if k == 'edit':
       e = op['edit']
@@ -510,7 +574,11 @@ class TwinHeaps:
     skB0 = skeleton(self.B)
     CNT.__init__()
     yE = self.fnsE[fi](nodesB, x, op['sel'], op['trips'])
+    boxE = None
+    if isinstance(yE, tuple):
+      yE, boxE = yE
     nE = CNT.n
+    detached = CNT.detached
     created, structural = CNT.created, CNT.structural
     skB1 = skeleton(self.B)
     if op.get('fault') is not None:
@@ -555,6 +623,9 @@ class TwinHeaps:
       raise Violation('transform-raises', f'{where}: eager run succeeds but the transformed call raised {type(e).__name__}: {str(e)[:300]}')
     if T == 'cached_partial':
       self.last_struct.setdefault(('cp', fi), struct_key)
+    boxT = None
+    if isinstance(yT, tuple):
+      yT, boxT = yT
     self.instr += nE + CNT.n
     if created:
       res.probe('new_object_created_in_trace')
@@ -580,12 +651,56 @@ class TwinHeaps:
         raise Violation('state-differs-from-eager', f'{where}: path {p} exists after the eager run but not after the transformed call')
       if invB0.get(ib) != invA0.get(ia):
         raise Violation('identity-differs-from-eager', f'{where}: object at path {p} is ' + ('a copy instead of the caller\'s original object' if invB0.get(ib) is not None else 'an old object where the eager run creates a new one') + f' (eager: was at {invB0.get(ib)}, transformed: was at {invA0.get(ia)})')
+    if (boxT is None) != (boxE is None):
+      raise Violation('result-differs-from-eager', f'{where}: the eager run returns {"an object" if boxE is not None else "no object"}, the transformed call {"an object" if boxT is not None else "none"}')
+    if boxE is not None:
+      # the object handed back: same shape and values as the eager one, and what sits inside is the caller's own
+      # object exactly where the eager run hands back the caller's own object
+      ca, cb = W.canon_real(boxT), W.canon_real(boxE)
+      if ca != cb:
+        raise Violation('result-differs-from-eager', f'{where}: returned object {W._short(ca)} differs from the eager run {W._short(cb)}')
+      oa, ob = reachable(boxT), reachable(boxE)
+      for (pa, xa), (pb, xb) in zip(oa, ob):
+        if invB0.get(id(xb)) != invA0.get(id(xa)):
+          raise Violation('identity-differs-from-eager', f'{where}: returned object, path {pa}: ' + ('a copy instead of the caller\'s original object' if invB0.get(id(xb)) is not None else 'one of the caller\'s objects where the eager run returns a new one') + f' (eager: was at {invB0.get(id(xb))}, transformed: was at {invA0.get(id(xa))})')
+      self.returned.append((boxT, boxE))
+      res.probe('object_returned')
+      if detached:
+        res.probe('detached_object_returned')
+    self.compare_returned(where)
     self.calls += 1
     self.log.add(oi, 'call', T, kernel.digest(val(yE)))
+
+  def compare_returned(self, where):
+    for i, (a, b) in enumerate(self.returned):
+      ca, cb = W.canon_real(a), W.canon_real(b)
+      if ca != cb:
+        raise Violation('state-differs-from-eager', f'{where}: the object returned by an earlier call (#{i}) now reads {W._short(ca)}, after the same history on the eager side {W._short(cb)}')
+
+  def returned_op(self, oi, op):
+    if not self.returned:
+      return
+    a, b = self.returned[-1 - op['which'] % len(self.returned)]
+    if op['how'] == 'meta':
+      for box in (a, b):
+        vs = [x for _, x in reachable(box) if isinstance(x, nnx.Variable)]
+        setattr(vs[0], op['key'], op['value'])
+      self.res.probe('returned_object_metadata_edit')
+    else:
+      i = op['node'] % len(self.A.nodes)
+      for h, box in ((self.A, a), (self.B, b)):
+        node = h.real[h.nodes[i]]
+        if 'inner' in vars(box) and 'back' not in vars(node):
+          node.back = box.inner
+      self.res.probe('returned_object_reattached')
+    self.compare(f'op {oi} returned/{op["how"]}')
+    self.compare_returned(f'op {oi} returned/{op["how"]}')
+    self.log.add(oi, 'returned', op['how'])
 
   def resync_from_B_failed(self):
     # the transformed call was (legitimately) rejected: the eager twin already ran the program; bring A to B's state
     self.A.real = twin_copy(self.B.real)
+    self.returned = []
     self.fnsT = [build_fn(fd, 'T') for fd in self.plan['knobs']['fns']]
     self.last_struct = {}
 
